@@ -16,7 +16,8 @@ from parglare.exceptions import (DisambiguationError, GrammarError, LoopError,
 from parglare.glr import Parent
 from parglare.tables import LALR, SLR
 
-assert os.path.realpath(parglare.__file__).startswith("/repo/"), parglare.__file__
+assert os.path.realpath(parglare.__file__).startswith(
+    os.path.realpath(os.environ.get("PGMC_REPO", "/repo")) + "/"), parglare.__file__
 
 TABLES = {"LALR": LALR, "SLR": SLR}
 INF = float("inf")
